@@ -338,9 +338,7 @@ def run(ctx, col: Collector):
 
     def property_form_off():
         # `key: 'value'` is an unknown construct unless arbitrary properties are enabled (rule shared with C15)
-        from . import c15
-        sub = Collector(col.prop)
-        c15.run(ctx, sub)
+        sub = ctx.sub('c15', col.prop)
         n = 0
         for o in sub.obs:
             if o.rule == 'C15-select' and o.construct.startswith('allow_properties=False'):
